@@ -6,6 +6,7 @@ import Just.Model.Eval
 import Just.Lemmas.EvalOnce
 import Just.Lemmas.Path
 import Just.Lemmas.Percent
+import Just.Lemmas.PathText
 namespace Just.Props.C04
 open Just Just.Eval
 
@@ -514,6 +515,26 @@ theorem clean_idempotent (p : List Char) :
   unfold cleanComps
   rw [List.foldl_reverse]
   rw [foldr_fixed _ hs]
+
+/-- **cleaning is idempotent on path TEXTS**: `lexiclean (lexiclean p) = lexiclean p` for every text —
+the cleaned component list, written out with `PathBuf::push` and read again with
+`Path::components`, is the same list (`components_render`), so `clean(clean(p)) = clean(p)` -/
+theorem clean_text_idempotent (p : List Char) : cleanFn (cleanFn p) = cleanFn p := by
+  unfold cleanFn
+  simp only
+  by_cases h : lexiclean p = [] ∧ p ≠ []
+  · -- `clean` gives `.`; cleaning `.` gives `.`
+    have hc : (if lexiclean p = [] ∧ p ≠ [] then ['.'] else lexiclean p) = ['.'] := by simp [h]
+    rw [hc]
+    decide
+  · simp only [h, if_false]
+    rw [lexiclean_idempotent]
+    by_cases h2 : lexiclean p = []
+    · have hp : p = [] := by
+        apply Decidable.byContradiction
+        intro hne; exact h ⟨h2, hne⟩
+      simp [h2, hp]
+    · simp [h2]
 
 /-- **what `clean` removes** (README: "removing extra path separators, intermediate `.` components,
 and `..` where possible"): the result holds no `.` component, the root only in first place, and no
